@@ -554,11 +554,40 @@ def rule_position_slice(ctx: Ctx, rid="C10.POSITION-SLICE", parts=("arg", "primi
     m, fn = _choice(ctx)
     con = f"{BIN}:deterministic_choice"
     calls = [n for n in walk_no_nested(fn) if isinstance(n, ast.Call) and dotted(n.func) == "deterministic_proba"]
+    # a helper of the module that computes the position from one of its own parameters (`_hash_position(id, scale)` =
+    # `deterministic_proba(id) * scale`) is seen through: its call sites count, with the argument bound to that parameter
+    through = {}
+    for wname, w in m.functions().items():
+        if w is fn or wname == "deterministic_proba":
+            continue
+        inner = [n for n in walk_no_nested(w) if isinstance(n, ast.Call) and dotted(n.func) == "deterministic_proba"]
+        wparams = [a.arg for a in w.args.args]
+        if inner and all(len(c.args) == 1 and not c.keywords and isinstance(c.args[0], ast.Name) and c.args[0].id == inner[0].args[0].id
+                         for c in inner) and inner[0].args[0].id in wparams and not any(
+                isinstance(n, ast.Name) and isinstance(n.ctx, ast.Store) and n.id == inner[0].args[0].id for n in walk_no_nested(w)):
+            through[wname] = wparams.index(inner[0].args[0].id)
+    id_arg = {}
+    for n in walk_no_nested(fn):
+        if isinstance(n, ast.Call) and dotted(n.func) in through:
+            i = through[dotted(n.func)]
+            wp = [a.arg for a in m.functions()[dotted(n.func)].args.args]
+            a_ = n.args[i] if i < len(n.args) and not any(isinstance(x, ast.Starred) for x in n.args) else next(
+                (k.value for k in n.keywords if k.arg == wp[i]), None)
+            calls.append(n)
+            id_arg[id(n)] = a_
     ctx.rep.floor("deterministic_proba call sites", len(calls), 2)
     params = [a.arg for a in fn.args.args]
     idp = params[0]
     stores = [n for n in walk_no_nested(fn) if isinstance(n, ast.Name) and isinstance(n.ctx, ast.Store) and n.id == idp]
     for c in calls:
+        if id(c) in id_arg:
+            a_ = id_arg[id(c)]
+            ok = isinstance(a_, ast.Name) and a_.id == idp and not stores
+            ctx.rep.check(ok, rid, con + f"[{norm(c)[:50]}]",
+                          "hash position computed from the id alone (through a helper that hashes its own parameter)" if ok else
+                          f"hash position depends on more than the unit's key: the helper hashes {norm(a_) if a_ is not None else '?'}",
+                          site=m.site(c), text=norm(c))
+            continue
         ok = len(c.args) == 1 and not c.keywords and isinstance(c.args[0], ast.Name) and c.args[0].id == idp and not stores
         ctx.rep.check(ok, rid, con + f"[{norm(c)[:50]}]",
                       "hash position computed from the id alone" if ok else
